@@ -307,7 +307,7 @@ CHECKS = {
         text="Seven Qed-closed theorems over model/Stack.v (every well-nested operation sequence, every declaration with distinct names, every field order): "
              "frames of every stack preserved, push saves/resets, pop restores, read at any depth, clear restores, registration covers exactly the declared "
              "fields. Tied to trace_stack.py by running 500 generated declarations x operation sequences through both and comparing every attribute after "
-             "every operation; a list-of-dicts reference oracle states the property directly on the implementation. A push resets a container to a fresh copy of the value it was DECLARED with (IFresh k items), and every needing_manual_initialization block adds its fields: the model and the reference oracle had transcribed the two defects repaired by 8d4875c.",
+             "every operation; a list-of-dicts reference oracle states the property directly on the implementation. A push resets a container to a fresh copy of the value it was DECLARED with (IFresh k items), and every needing_manual_initialization block adds its fields: the model and the reference oracle had transcribed the two defects repaired by 8d4875c. Containers may hold mutable containers (VNest / IFreshN: a list or dict whose elements are lists, mutated in place by OAppendIn): the copy a push hands out is deep.",
         note="Trusted: Coq kernel + vm_compute; hand transcription of trace_stack.py over pure values (no aliasing) validated by correspondence; the harness. "
              "wf (distinct names) is a hypothesis, decidable and checked on every generated declaration.",
         ref="DESIGN.md section 7 C20"),
